@@ -4,8 +4,12 @@
      a1 = descriptor     prefix code of the [ty] (see parse_ty)
      a2 = payload        ser/rt/ser_ref/ser_slice: flat rendering of the value; de: the input bytes
      a3 = [c; vl]        de only: Compress::Yes = 1, Validate::Yes = 1
+   check:       a2 = flat value x;            result [Valid::check(&x); T::batch_check(once(&x))]
+   batch_check: a2 = n then n flat values xs; result [T::batch_check(xs.iter()); T::batch_check(inexact-size iterator);
+                                                      Valid::check of each element], a check result being
+                                                      [1] for Ok(()) and [0; kind] for Err
    Flat rendering of a value of type t (parse_val / render):
-     ints, bool, Even, Modal, BigUint: one integer;  unit: nothing;  pair: a then b;
+     ints, bool, Even, Modal, BigUint, Leaf: one integer;  unit: nothing;  pair: a then b;
      option: 0 | 1 then payload;  array: the N elements;  seq/set: n then the elements;
      string: n then the bytes;  map: n then key value key value ...;  wrappers/structs: the inner value.
    Status: [0] ok, [1;kind] SerializationError (0 IoError, 1 InvalidData), [2] panic/out of fuel,
@@ -54,6 +58,7 @@ Fixpoint parse_ty (fuel : nat) (l : list Z) : option (ty * list Z) :=
               | _ => None
               end
       | 15 => obind (parse_ty f r) (fun tr => Some (TStruct (fst tr), snd tr))
+      | 16 => match r with w :: k :: r' => Some (TLeaf (Z.to_nat w) k, r') | _ => None end
       | _ => None
       end
     end
@@ -81,7 +86,7 @@ Definition parse_counted {A : Type} (P : list Z -> option (A * list Z)) (zs : li
 
 Fixpoint parse_val (t : ty) (zs : list Z) {struct t} : option (value * list Z) :=
   match t with
-  | TUInt _ | TSInt _ | TBool | TEven | TModal | TBigUint =>
+  | TUInt _ | TSInt _ | TBool | TEven | TModal | TBigUint | TLeaf _ _ =>
     obind (parse_int zs) (fun zr => Some (VInt (fst zr), snd zr))
   | TUnit => Some (VUnit, zs)
   | TOption t' => match zs with
@@ -106,7 +111,7 @@ Fixpoint parse_val (t : ty) (zs : list Z) {struct t} : option (value * list Z) :
 
 Fixpoint render (t : ty) (x : value) {struct t} : list Z :=
   match t with
-  | TUInt _ | TSInt _ | TBool | TEven | TModal | TBigUint => match x with VInt z => [z] | _ => [] end
+  | TUInt _ | TSInt _ | TBool | TEven | TModal | TBigUint | TLeaf _ _ => match x with VInt z => [z] | _ => [] end
   | TUnit => []
   | TOption t' => match x with VSome y => 1 :: render t' y | _ => [0] end
   | TPair a b => match x with VPair y z => render a y ++ render b z | _ => [] end
@@ -143,6 +148,9 @@ Definition rt_flag (t : ty) (x : value) (c vl : bool) : Z :=
   | Panic _ => 3
   end.
 
+(* Result<(), SerializationError> of Valid::check / batch_check: the only error is InvalidData *)
+Definition vres (b : bool) : list Z := if b then [1] else [0; EINVALID].
+
 Definition run_C18 (op : Z) (a : list (list Z)) : list (list Z) :=
   let desc := arg 1 a in
   match parse_ty (S (length desc)) desc with
@@ -157,7 +165,14 @@ Definition run_C18 (op : Z) (a : list (list Z)) : list (list Z) :=
       | Err k => err k
       | Panic _ => panic
       end
-    | 1 | 3 | 4 | 5 =>
+    | 7 => (* batch_check over a batch of values of type t *)
+      match parse_val (TSeq t) (arg 2 a) with
+      | Some (VList l, []) =>
+        let r := vres (forallb (valid t) l) in
+        ok [r; r; map (fun x => Z.b2z (valid t x)) l]
+      | _ => unsupported
+      end
+    | 1 | 3 | 4 | 5 | 6 =>
       match parse_val t (arg 2 a) with
       | Some (x, []) =>
         match op with
@@ -170,6 +185,8 @@ Definition run_C18 (op : Z) (a : list (list Z)) : list (list Z) :=
         | 5 => (* [T] and &[T] of a Vec<T> *)
           ok [enc true t x; enc false t x; enc true t x; enc false t x;
               [size true t x; size false t x; size true t x; size false t x]]
+        | 6 => (* Valid::check, and batch_check of the one-element batch *)
+          ok [vres (valid t x); vres (valid t x)]
         | _ => unsupported
         end
       | _ => unsupported
